@@ -52,9 +52,14 @@ func (g *gen) integrity(n int) {
 		key := g.r.bytes(g.keyLen())
 		if i%7 == 3 { // long-term key: MD5(user:realm:pass), computed here with crypto/md5 and by both sides
 			u, r, p := g.r.bytes(g.r.intn(12)), g.r.bytes(g.r.intn(12)), g.r.bytes(g.r.intn(12))
+			// credentials are arbitrary strings: letters, digits, '%' and ':' and spaces, non-ASCII, now and then any bytes
+			const credAlphabet = "abcXYZ019%%:@ ._-/\\+=#é漢"
 			for _, x := range [][]byte{u, r, p} {
+				if g.r.chance(1, 6) {
+					continue // any bytes
+				}
 				for j := range x {
-					x[j] = 'a' + x[j]%26
+					x[j] = credAlphabet[int(x[j])%len(credAlphabet)]
 				}
 			}
 			g.emit("LTKEY %s %s %s", showHex(u), showHex(r), showHex(p))
@@ -221,6 +226,31 @@ func (g *gen) fingerprint(n int) {
 		for _, l := range []int{0, 1, 3, 4, 5, 8} {
 			c := wire(typ, tid, append([]wattr{{typ: 0x8028, val: g.r.bytes(l), pad: make([]byte, pad4(l))}}, as...))
 			g.emit("RAWDEC 1 0 0 %s", showHex(c))
+			g.emit("CHECK 1 fp")
+		}
+		// the FIRST FINGERPRINT decides, also after an attribute walk that was aborted by its callback (ForEach must
+		// hand the attribute list back as it was): a bogus FINGERPRINT in front, the right one at the end
+		{
+			front := append([]wattr{{typ: 0x8028, val: g.r.bytes(4)}}, as...)
+			pre2 := wire(typ, tid, front)
+			setHdrLen(pre2, len(pre2)-20+8)
+			v2 := make([]byte, 4)
+			binary.BigEndian.PutUint32(v2, fpValue(pre2))
+			c2 := wire(typ, tid, append(front, wattr{typ: 0x8028, val: v2}))
+			g.emit("RAWDEC 1 0 0 %s", showHex(c2))
+			g.emit("CHECK 1 fp")
+			if nb > 0 {
+				t := as[nb-1].typ
+				cnt := 0
+				for _, a := range as {
+					if a.typ == t {
+						cnt++
+					}
+				}
+				g.emit("FOREACH 1 %d %d 0", t, cnt)
+				g.emit("CHECK 1 fp")
+			}
+			g.emit("FOREACH 1 %d 2 0", 0x8028)
 			g.emit("CHECK 1 fp")
 		}
 		// library: every body length 0, 4, 8, … gets fingerprinted over the run (a carry from the low into the high byte
